@@ -298,11 +298,6 @@ def rule_forwarding(ctx, rid, r):
         (r.runcb, r.bound_run, "retry", "retry", ()),
         (run, ap, "retry", "retry", ()),
         (ap, st, "retry", "retry", ()),
-        (run, rp, "scheduler", "scheduler", ()),
-        (rp, eng, "scheduler", "scheduler", ()),
-        (eng, er.queue_factory, "scheduler", "scheduler", ()),
-        (run, ap, "fresh_time", "fresh_time", ()),
-        (ap, st, "fresh_time", "fresh_time", ()),
     ]
     n = 0
     for caller, callee, param, src, fb in hops:
@@ -323,13 +318,25 @@ def rule_forwarding(ctx, rid, r):
                        norm(c)[:140])
                 continue
             ok = is_name(a, src)
+            if not ok and fb:
+                # the fallback spelled at the call site: `<fallback> if <src> is None else <src>`
+                base = tuple(E.cond_key(t, pol) for t, pol in E.path_condition(caller.module, stmt_of(caller.module, c), caller.node))
+                leaves = E.split_conditional(a, base)
+                ok = bool(leaves) and len(leaves) > 1
+                for c_, v_ in leaves:
+                    unset = (f"set:{src}", False) in c_
+                    isset = (f"set:{src}", True) in c_
+                    ok = ok and ((isset and is_name(v_, src)) or (unset and isinstance(v_, ast.Name) and v_.id in fb))
+                if ok:
+                    for fbn in fb:
+                        ok = _check_source_var(ctx, rid, m, caller, fbn, hop) and ok
             if not ok:
                 ctx.ob(rid, hop, False, loc(caller, c), f"`{param}` receives `{norm(a)}` instead of `{src}`", norm(c)[:140])
                 continue
             ok = _check_source_var(ctx, rid, m, caller, src, hop, fb)
             if ok:
                 ctx.ob(rid, hop, True, loc(caller, c), "forwarded unchanged (allow-listed coercions only)")
-    ctx.floor(rid, "forwarding hops", n, 17)
+    ctx.floor(rid, "forwarding hops", n, 12)
     # the engine uses its worker_count parameter for the pool
     a = arg(er.pool_call, 2, "worker_count")
     ok = a is not None and is_name(a, "worker_count")
@@ -337,17 +344,6 @@ def rule_forwarding(ctx, rid, r):
            "pool is not sized by the worker_count parameter", norm(er.pool_call))
     _check_source_var(ctx, rid, m, eng, "worker_count", f"{eng.short}.worker_count")
     _check_source_var(ctx, rid, m, eng, "max_errors", f"{eng.short}.max_errors")
-    # scheduler dispatch in the queue factory: 'default' -> priority queue, 'random' -> random queue
-    qf = er.queue_factory
-    for n_ in qf.own_nodes():
-        if isinstance(n_, ast.If) and isinstance(n_.test, ast.Compare) and isinstance(n_.test.comparators[0], ast.Constant):
-            which = n_.test.comparators[0].value
-            rets = [x for x in n_.body if isinstance(x, ast.Return)]
-            want = {"random": "RandomQueue", "default": "PriorityQueue", "cheap": "create_simple_queue"}.get(which)
-            if want and rets:
-                ok = want in norm(rets[0].value)
-                ctx.ob(rid, f"{qf.short}/scheduler-{which}", ok, loc(qf, n_), f"'{which}' -> {want}" if ok else
-                       f"scheduler '{which}' does not construct {want}", head(n_))
 
 
 # ------------------------------------------------------------------------------------------------ C10.F2
